@@ -15,13 +15,23 @@ type AOp struct {
 	Assoc  string `json:"assoc"` // Pets Toys Languages Friends Account Company Team
 	Target uint   `json:"target"`
 	N      int    `json:"n"`
+	// Unscoped: Delete/Clear/Replace also delete the associated rows, not only the links
+	Unscoped bool `json:"unscoped,omitempty"`
+	// Parents > 1: the association is taken on a slice of that many users (ids Target, Target+1, …)
+	Parents int `json:"parents,omitempty"`
 }
 
 var AssocKinds = []string{"append", "replace", "delete", "clear", "count", "find"}
-var assocs = []string{"Pets", "Toys", "Languages", "Friends", "Account", "Company", "Team"}
+var assocs = []string{"Pets", "Toys", "Languages", "Friends", "Account", "Company", "Team", "Manager"}
 
 func GenAOp(r *core.Rand) AOp {
-	return AOp{Kind: r.Pick(AssocKinds), Assoc: r.Pick(assocs), Target: uint(1 + r.Intn(3)), N: r.Range(1, 2)}
+	op := AOp{Kind: r.Pick(AssocKinds), Assoc: r.Pick(assocs), Target: uint(1 + r.Intn(3)), N: r.Range(1, 2)}
+	op.Unscoped = r.Chance(25)
+	if r.Chance(25) {
+		op.Parents = 2
+		op.Target = uint(1 + r.Intn(2))
+	}
+	return op
 }
 
 func (op *AOp) values() []interface{} {
@@ -40,6 +50,8 @@ func (op *AOp) values() []interface{} {
 			return []interface{}{&fam.Account{Number: "aa"}}
 		case "Company":
 			return []interface{}{&fam.Company{Name: "ac"}}
+		case "Manager":
+			return []interface{}{&fam.User{Name: "am"}}
 		}
 	}
 	return out
@@ -60,21 +72,48 @@ func (op *AOp) existing() []interface{} {
 		return []interface{}{&fam.User{ID: 2}}
 	case "Account":
 		return []interface{}{&fam.Account{ID: 1}}
+	case "Manager":
+		return []interface{}{&fam.User{ID: 1}}
 	}
 	return []interface{}{&fam.Company{ID: 1}}
 }
 
 func (op *AOp) Exec(db *gorm.DB) Result {
-	u := &fam.User{ID: op.Target}
+	var u interface{} = &fam.User{ID: op.Target}
+	if op.Parents > 1 {
+		us := make([]fam.User, op.Parents)
+		for i := range us {
+			us[i].ID = op.Target + uint(i)
+		}
+		u = &us
+	}
 	as := db.Model(u).Association(op.Assoc)
 	if as.Error != nil {
 		return Result{Err: as.Error}
 	}
+	if op.Unscoped {
+		as = as.Unscoped()
+	}
 	switch op.Kind {
 	case "append":
-		return Result{Err: as.Append(op.values()...), Value: u}
+		vals := op.values()
+		if op.Parents > 1 {
+			// one value (or slice of values) per parent
+			vals = nil
+			for i := 0; i < op.Parents; i++ {
+				vals = append(vals, op.values()[0])
+			}
+		}
+		return Result{Err: as.Append(vals...), Value: u}
 	case "replace":
-		return Result{Err: as.Replace(op.values()...), Value: u}
+		vals := op.values()
+		if op.Parents > 1 {
+			vals = nil
+			for i := 0; i < op.Parents; i++ {
+				vals = append(vals, op.values()[0])
+			}
+		}
+		return Result{Err: as.Replace(vals...), Value: u}
 	case "delete":
 		return Result{Err: as.Delete(op.existing()...), Value: u}
 	case "clear":
@@ -94,6 +133,9 @@ func (op *AOp) Exec(db *gorm.DB) Result {
 			var v []fam.Language
 			return Result{Err: as.Find(&v), Value: &v}
 		case "Friends", "Team":
+			var v []fam.User
+			return Result{Err: as.Find(&v), Value: &v}
+		case "Manager":
 			var v []fam.User
 			return Result{Err: as.Find(&v), Value: &v}
 		case "Account":
